@@ -104,11 +104,30 @@ theorem nodeLocalOK_iff (m : Model) (n : Nat) (par : Option Nat) (node : Node) :
   unfold nodeLocalOK
   simp [and_assoc]
 
+/-- the loop over the whole node array: every node carries its index -/
+theorem idsOK_iff (m : Model) :
+    idsOK m = true ↔ ∀ (n : Nat) (node : Node), m.nodes[n]? = some node → node.id = some n := by
+  unfold idsOK
+  rw [List.all_eq_true]
+  constructor
+  · intro h n node hn
+    have hlt : n < m.nodes.length := (List.getElem?_eq_some_iff.mp hn).1
+    have := h n (List.mem_range.mpr hlt)
+    rw [hn] at this
+    simpa using this
+  · intro h i _
+    cases hn : m.nodes[i]? with
+    | none => rfl
+    | some node => simp [h i node hn]
+
+theorem structCheck_iff (m : Model) :
+    structCheck m = true ↔ versionOK m = true ∧ idsOK m = true ∧ dfs m (m.nodes.length + 1) m.startId none = true := by
+  unfold structCheck
+  simp only [Bool.and_eq_true, and_assoc]
+
 /-- **(→)** a model that passes the structural check obeys the documented rules -/
 theorem sane_of_structCheck (m : Model) (h : structCheck m = true) : Sane m := by
-  unfold structCheck at h
-  simp only [Bool.and_eq_true] at h
-  obtain ⟨hv, h0⟩ := h
+  obtain ⟨hv, hids, h0⟩ := (structCheck_iff m).mp h
   have local_of : ∀ n node, Reach m n → m.nodes[n]? = some node →
       ∃ f par, nodeLocalOK m n par node = true ∧
         ∀ d ∈ node.dests, ∃ k, d = some k ∧ dfs m f k (some n) = true := by
@@ -124,9 +143,7 @@ theorem sane_of_structCheck (m : Model) (h : structCheck m = true) : Sane m := b
     | some v => simp [hver] at hv; exact ⟨v, rfl, hv.1, hv.2⟩
   · obtain ⟨f', node, _, hn, hl, _⟩ := dfs_true h0
     exact ⟨node, hn, ((nodeLocalOK_iff _ _ _ _).mp hl).2.1⟩
-  · intro n node hr hn
-    obtain ⟨f, par, hl, _⟩ := local_of n node hr hn
-    exact ((nodeLocalOK_iff _ _ _ _).mp hl).1
+  · exact (idsOK_iff m).mp hids
   · intro n node hr hn
     obtain ⟨f, par, hl, hall⟩ := local_of n node hr hn
     obtain ⟨_, _, hve, hpe, _⟩ := (nodeLocalOK_iff _ _ _ _).mp hl
@@ -242,7 +259,7 @@ theorem nodeLocalOK_of_sane {m : Model} (hs : Sane m) {n : Nat} {node : Node} (h
     nodeLocalOK m n par node = true := by
   rw [nodeLocalOK_iff]
   obtain ⟨hval, htag, hdst⟩ := hs.edges n node hr hn
-  refine ⟨hs.ids n node hr hn, hp, ?_, ?_, hs.signers n node hr hn⟩
+  refine ⟨hs.ids n node hn, hp, ?_, ?_, hs.signers n node hr hn⟩
   · intro ve hve
     obtain ⟨k, _, hk, _⟩ := hdst _ (vdest_mem_dests hve)
     exact (vEdgeOK_iff ve).mpr ⟨⟨k, hk⟩, hval ve hve⟩
@@ -279,9 +296,8 @@ theorem dfs_of_sane {m : Model} (hs : Sane m) :
 
 /-- **(←)** a model obeying the documented rules passes the structural check -/
 theorem structCheck_of_sane (m : Model) (hs : Sane m) : structCheck m = true := by
-  unfold structCheck
-  simp only [Bool.and_eq_true]
-  constructor
+  rw [structCheck_iff]
+  refine ⟨?_, (idsOK_iff m).mpr hs.ids, ?_⟩
   · obtain ⟨v, hv, h1, h2⟩ := hs.version
     simp [versionOK, hv, h1, h2]
   · exact dfs_of_sane hs (m.nodes.length + 1) m.startId [] AncPath.root (by simp)
